@@ -229,6 +229,10 @@ XER_BITS = [b"<", b">", b"&", b"&amp;", b"&#x41;", b"&#xFFFFFFFFFF;", b"&#999999
             b"\x00", b"\xff\xfe", b" " * 40, b"</", b"/>", b"<a>", b"</a>", b"-", b"99999999999999999999999999", b"<true/>", b"<false/>", b"\n"]
 
 
+CHARREFS = [b"&#0;", b"&#;", b"&#x;", b"&#x0;", b"&#0000000000000;", b"&#1;", b"&#x1;", b"&#127;", b"&#128;", b"&#xD800;", b"&#x10FFFF;", b"&#x110000;",
+            b"&#4294967295;", b"&#4294967296;", b"&#-1;", b"&#+1;", b"&#x", b"&#", b"&#0"]
+
+
 def mut_xer(b, rng, budget, others):
     out = []
     n = len(b)
@@ -243,6 +247,11 @@ def mut_xer(b, rng, budget, others):
     for _ in range(budget["lenform"]):
         i = rng.below(n + 1)
         out.append(("xins", b[:i] + rng.choice(XER_BITS) + b[i:]))
+    # character references at the boundaries of OS__strtoent (0, no digits, 1, surrogate, > 0x10FFFF, overflow,
+    # sign) put where element TEXT is: directly behind a tag
+    spots = [(e, f) for (s_, e) in tags for f in CHARREFS]
+    for (e, f) in cap(spots, budget["lenform"], rng):
+        out.append(("charref", b[:e] + f + b[e:]))
     out += mut_bytes_generic(b, rng, budget["generic"], budget["generic"], others)
     return out
 
